@@ -22,13 +22,16 @@ META = dict(
          "(64-bit sizes, 32-bit ids/modes/times, extended maps of bytes->bytes) are packed with the real _pack, "
          "compared byte-for-byte with a reference encoding (so the flags word is judged on the wire), unpacked "
          "with the real _unpack and compared field by field (absent stays None, _flags == present groups). "
+         "Reuse histories drive ONE object through random set-field / clear-field / pack / decode-into-fresh / "
+         "from_stat steps with a reference model of the fields present now; every pack's flags word, bytes and "
+         "decode are compared (no stale flag bit after a field was removed, none missing after one was added). "
          "The same contracts stay installed while attribute sets travel through a real SFTP SETSTAT/STAT "
          "exchange. Holds on the executions produced, not for all inputs.",
     note="Trusts struct and the SFTP v3 ATTRS layout (draft-ietf-secsh-filexfer-02 §5). uid/gid and atime/mtime "
          "are one wire field each and are generated as pairs; times are integers; extended maps are bytes->bytes "
          "(str maps are compared in UTF-8 encoded form because the wire has no text type).",
     rule="case = one attribute set (presence bits + values + extended map) with a random prefix/trailer around "
-         "the ATTRS block; distinct = hash of the set; trivial (not counted) = nothing",
+         "the ATTRS block, or one reuse history (operation list on a single object); distinct = hash of the set; trivial (not counted) = nothing",
     assumptions=["SFTP v3 ATTRS layout: flags u32, size u64, uid u32 gid u32, perms u32, atime u32 mtime u32, "
                  "count u32 + (string,string)*"],
 )
@@ -426,6 +429,186 @@ def one_case(ctx, rng, spec):
 
 
 # --------------------------------------------------------------------------
+# histories: ONE object reused across several encodes / decodes
+# --------------------------------------------------------------------------
+class FakeStat:
+    """os.stat-like object with integer times (what from_stat copies from)."""
+
+    def __init__(self, rng):
+        self.st_size = r64(rng)
+        self.st_uid, self.st_gid = r32(rng), r32(rng)
+        self.st_mode = r32(rng)
+        self.st_atime, self.st_mtime = r32(rng), r32(rng)
+
+
+GROUPS = ("size", "uidgid", "mode", "amtime", "ext")
+
+
+def _set_group(rng, obj, model, g):
+    if g == "size":
+        model[g] = obj.st_size = r64(rng)
+    elif g == "uidgid":
+        model[g] = (r32(rng), r32(rng))
+        obj.st_uid, obj.st_gid = model[g]
+    elif g == "mode":
+        model[g] = obj.st_mode = r32(rng)
+    elif g == "amtime":
+        model[g] = (r32(rng), r32(rng))
+        obj.st_atime, obj.st_mtime = model[g]
+    else:
+        k = rbytes(rng, 12) if rng.random() < 0.5 else rng.choice(EXT_NAMES)
+        v = rbytes(rng, 20)
+        obj.attr[k] = v
+        model["ext"][k] = v
+
+
+def _clear_group(rng, obj, model, g):
+    if g == "size":
+        model[g] = obj.st_size = None
+    elif g == "uidgid":
+        model[g] = None
+        obj.st_uid = obj.st_gid = None
+    elif g == "mode":
+        model[g] = obj.st_mode = None
+    elif g == "amtime":
+        model[g] = None
+        obj.st_atime = obj.st_mtime = None
+    else:
+        how = rng.random()
+        if how < 0.4 and len(model["ext"]) > 1:  # drop one entry only: the group stays present
+            k = rng.choice(list(model["ext"]))
+            del obj.attr[k]
+            del model["ext"][k]
+            return False
+        if how < 0.7:
+            obj.attr.clear()
+        else:
+            obj.attr = {}
+        model["ext"] = {}
+    return True
+
+
+def _present(model, g):
+    return bool(model[g]) if g == "ext" else model[g] is not None
+
+
+def history_case(ctx, rng, hi):
+    """Random {set, clear, pack, decode-into-fresh, from_stat} sequence on the same object, with a reference
+    model of the fields present *now*; every pack is compared (flags word + bytes + decode of those bytes)."""
+    ops = []
+    origin = rng.choice(["new", "new", "from_stat", "decoded"])
+    removed = added = False
+
+    def fresh(kind):
+        if kind == "from_stat":
+            st = FakeStat(rng)
+            o = SFTPAttributes.from_stat(st, filename="f" if rng.random() < 0.5 else None)
+            m = dict(size=st.st_size, uidgid=(st.st_uid, st.st_gid), mode=st.st_mode,
+                     amtime=(st.st_atime, st.st_mtime), ext={})
+        elif kind == "decoded":
+            m = make_spec(rng)
+            m["ext"] = dict(_ext_bytes(m["ext"].items()))
+            # decode the real encoder's own bytes (already judged against the reference by the direct stratum):
+            # feeding reference bytes to a decoder that disagrees about the layout can make it read a huge
+            # extended count and spin for hours - a harness hazard, not this property
+            w = Message()
+            build(m)._pack(w)
+            o = SFTPAttributes._from_msg(Message(w.asbytes()))  # its _flags now holds what was on the wire
+        else:
+            o = SFTPAttributes()
+            m = dict(size=None, uidgid=None, mode=None, amtime=None, ext={})
+        ops.append(["start", kind, {g: _present(m, g) for g in GROUPS}])
+        return o, m
+
+    try:
+        obj, model = fresh(origin)
+    except gacontract.Breach:
+        REC.drain(ctx)
+        return
+    packs = 0
+    for step in range(rng.randint(3, 12)):
+        r = rng.random()
+        wit = dict(history=ops)
+        if r < 0.30:
+            g = rng.choice(GROUPS)
+            was = _present(model, g)
+            _set_group(rng, obj, model, g)
+            ops.append(["set", g])
+            if not was:
+                added = True
+        elif r < 0.58:
+            have = [g for g in GROUPS if _present(model, g)]
+            if not have:
+                continue
+            g = rng.choice(have)
+            gone = _clear_group(rng, obj, model, g)
+            ops.append(["clear" if gone else "drop-one-extended", g])
+            if gone:
+                removed = True
+        elif r < 0.64:
+            try:
+                obj, model = fresh(rng.choice(["from_stat", "decoded"]))
+            except gacontract.Breach:
+                REC.drain(ctx)
+                return
+            removed = added = False
+        else:
+            ops.append(["pack", {g: _present(model, g) for g in GROUPS}])
+            m = Message()
+            ctxword = ("after a field was removed" if removed else "after a field was added" if added
+                       else "with unchanged field set")
+            try:
+                obj._pack(m)
+            except gacontract.Breach:
+                REC.drain(ctx)
+                return
+            except Exception as e:
+                ctx.violation("exception from _pack on a reused object %s: %s" % (ctxword, exc_signature(e)),
+                              repr(e)[:200], wit)
+                return
+            packs += 1
+            ctx.count("history_packs")
+            if removed:
+                ctx.count("packs_after_a_field_was_removed")
+            if added:
+                ctx.count("packs_after_a_field_was_added")
+            if packs > 1:
+                ctx.count("repeat_packs_of_the_same_object")
+            wire = m.asbytes()
+            want = ref_encode(model["size"], model["uidgid"], model["mode"], model["amtime"], list(model["ext"].items()))
+            if wire != want:
+                if wire[:4] != want[:4]:
+                    stale = struct.unpack(">I", wire[:4])[0] & ~struct.unpack(">I", want[:4])[0] if len(wire) >= 4 else 0
+                    sig = ("flags word of a reused object keeps a stale bit %s" % ctxword if stale
+                           else "flags word of a reused object misses a present field %s" % ctxword)
+                else:
+                    sig = "reused object encodes different bytes than its current fields %s" % ctxword
+                ctx.violation(sig, "_pack wrote %s, current fields encode as %s" % (wire[:24].hex(), want[:24].hex()),
+                              dict(wit, got=wire, want=want))
+                return
+            want_flags = ref_flags(model["size"], model["uidgid"], model["mode"], model["amtime"], model["ext"])
+            if obj._flags != want_flags:
+                ctx.violation("_flags of a reused object differs from the fields present now %s" % ctxword,
+                              "_flags=%#x, present=%#x" % (obj._flags, want_flags), wit)
+                return
+            try:
+                back = SFTPAttributes._from_msg(Message(wire))
+            except gacontract.Breach:
+                REC.drain(ctx)
+                return
+            except Exception as e:
+                ctx.violation("exception from _unpack: " + exc_signature(e), repr(e)[:200], wit)
+                return
+            if not compare_decoded(ctx, model, back, "history: decode of a reused object's encoding"):
+                return
+            removed = added = False
+    REC.drain(ctx)
+    ctx.case(("history", repr(ops)), sample=dict(kind="reuse history", ops=ops) if hi < 1 else None,
+             nontrivial=packs > 0)
+    ctx.count("histories_run")
+
+
+# --------------------------------------------------------------------------
 # a sample through a real SFTP session (client packs -> server unpacks -> server packs -> client unpacks)
 # --------------------------------------------------------------------------
 def session_sample(ctx, rng, n):
@@ -495,7 +678,7 @@ def run(ctx):
                 continue
             spec = make_spec(rng, bits)
             ctx.case(("enum", bits, sorted((k, repr(v)) for k, v in spec.items())),
-                     sample=dict(kind="presence-combination", bits=bits, spec=spec) if rep == 0 and bits in (0, 21, 31) else None)
+                     sample=dict(kind="presence-combination", bits=bits, spec=spec) if rep == 0 and bits == 21 else None)
             ctx.count("presence_combinations_cases")
             one_case(ctx, rng, spec)
     for i in range(ctx.pick(12000, 60000)):
@@ -505,7 +688,20 @@ def run(ctx):
         if spec["ext"]:
             ctx.count("cases_with_extended")
         one_case(ctx, rng, spec)
-    session_sample(ctx, rng, ctx.pick(150, 1500))
+    if ctx.violations:
+        # the single-shot strata already refute the property in this shard; a decoder that is wrong about the
+        # layout must not be driven further (misaligned reads can loop for hours)
+        ctx.count("history_and_session_strata_skipped_after_violation")
+    else:
+        for hi in range(ctx.pick(4000, 25000)):
+            history_case(ctx, rng, hi)
+            if ctx.violations:
+                break
+        session_sample(ctx, rng, ctx.pick(150, 1500))
+    ctx.require("history_packs", 10000)
+    ctx.require("packs_after_a_field_was_removed", 3000)
+    ctx.require("packs_after_a_field_was_added", 3000)
+    ctx.require("repeat_packs_of_the_same_object", 3000)
     ctx.require("roundtrips_compared", 5000)
     ctx.require("encodings_compared", 5000)
     ctx.require("contract_pack_appends_reference_encoding", 5000)
